@@ -26,17 +26,36 @@ func (in *Interp) noteVar(t *Term) {
 
 // fetchModel must be called right after a Sat check in the same solver scope.
 func (in *Interp) fetchModel() bool {
-	if len(in.pathVars) == 0 {
+	// only variables occurring in the path condition are constrained; all others default to 0
+	if len(in.pcVars) == 0 {
 		in.setModel(nil, nil)
 		return true
 	}
-	vals, err := in.sol.GetValues(in.pathVars)
+	vals, err := in.sol.GetValues(in.pcVars)
 	if err != nil {
 		in.modelValid = false
 		return false
 	}
-	in.setModel(in.pathVars, vals)
+	in.setModel(in.pcVars, vals)
 	return true
+}
+
+// notePCVars records the variables of a newly assumed condition.
+func (in *Interp) notePCVars(t *Term) {
+	st := []*Term{t}
+	for len(st) > 0 {
+		x := st[len(st)-1]
+		st = st[:len(st)-1]
+		if x.Op == OpConst || in.pcSeen[x.ID] {
+			continue
+		}
+		in.pcSeen[x.ID] = true
+		if x.Op == OpVar {
+			in.pcVars = append(in.pcVars, x)
+			continue
+		}
+		st = append(st, x.Args...)
+	}
 }
 
 // ensureModel makes sure a model of the current PC is cached. Returns false if PC is unsat.
